@@ -11,6 +11,8 @@ char *__real_strdup(const char *);
 int __real_vasprintf(char **, const char *, va_list);
 
 #define TCAP (1u << 20)
+/* pointers are stored scrambled so that LeakSanitizer does not see this table as a reference */
+#define SCR(p) ((void *)((uintptr_t)(p) ^ (uintptr_t)0x5a5a5a5a5a5a5a5aULL))
 static struct { void *p; size_t n; } tab[TCAP];
 static long live_count, live_bytes;
 
@@ -21,7 +23,7 @@ static void track(void *p, size_t n)
     unsigned h;
     if (p == NULL) return;
     for (h = hashp(p); tab[h].p != NULL && tab[h].p != (void *)1; h = (h + 1) & (TCAP - 1)) {}
-    tab[h].p = p; tab[h].n = n;
+    tab[h].p = SCR(p); tab[h].n = n;
     ++live_count; live_bytes += n;
 }
 
@@ -30,7 +32,7 @@ static bool untrack(void *p)
     unsigned h;
     if (p == NULL) return false;
     for (h = hashp(p); tab[h].p != NULL; h = (h + 1) & (TCAP - 1)) {
-	if (tab[h].p == p) {
+	if (tab[h].p == SCR(p)) {
 	    tab[h].p = (void *)1;	/* tombstone */
 	    --live_count; live_bytes -= tab[h].n;
 	    return true;
@@ -40,6 +42,12 @@ static bool untrack(void *p)
 }
 
 long vh_live_count(void) { return live_count; }
+void vh_live_dump(void)
+{
+    int shown = 0;
+    for (unsigned h = 0; h < TCAP && shown < 40; ++h)
+	if (tab[h].p != NULL && tab[h].p != (void *)1) { vh_out(" %zu", tab[h].n); ++shown; }
+}
 long vh_live_bytes(void) { return live_bytes; }
 
 static bool fault(void)
